@@ -109,6 +109,7 @@ theorem applyCmd_frame (k : Kern) (t t' : Table) (cmd : Cmd) (hc : cmd.chain.isG
     split at h
     · cases h
     · cases h
+    · cases h
     · split at h
       · cases h
       · cases h; rw [get_setChain]; simp [hne c hc]
@@ -176,6 +177,7 @@ theorem ensureRule_frame (k : Kern) (prepend : Bool) (c : Chain) (r : PRule)
   split
   · exact Frame.refl k
   · exact Frame.refl k
+  · exact Frame.refl k
   · split
     · exact Frame.refl k
     · rename_i rs hg
@@ -191,6 +193,7 @@ theorem ensureRule_frame (k : Kern) (prepend : Bool) (c : Chain) (r : PRule)
 theorem deleteRule_frame (k : Kern) (c : Chain) (r : PRule) (h : c.isGlx = true) : Frame k (deleteRule k c r).1 := by
   unfold deleteRule
   split
+  · exact Frame.refl k
   · exact Frame.refl k
   · exact Frame.refl k
   · split
